@@ -19,6 +19,7 @@ TECHNIQUE = ("deterministic simulation with a staged transport (send buffer "
              "inside producers' turns, subchannel pause/resume/stop requests, "
              "closes and connection replacement; reference model of who must "
              "be paused, checked after every event")
+RULE_CROWD = (" A sixth configuration registers a producer on each of 17..30 subchannels a side (mostly producers that write little, so that one drain has to wake them all).")
 RULE_BURST = (" In a fifth of the mixed runs an application dumps 1000..1300 small writes on a subchannel in one go (a long un-acked queue while the transport is full).")
 RULE = ("One evaluation = one seeded execution of two real Managers with 1-3 "
         "subchannels per side carrying push producers (0, 1 or many writes "
@@ -30,6 +31,7 @@ RULE = ("One evaluation = one seeded execution of two real Managers with 1-3 "
         "registered, or an application pause request was made. Distinct: "
         "event-log digests among non-trivial runs.")
 RULE += RULE_BURST
+RULE += RULE_CROWD
 LEVEL_TEXT = ("Seeded exploration. Model: writable := a connection exists, is "
               "alive and its transport's last signal to Outbound is not "
               "pause. After every event: every registered push producer is "
@@ -150,7 +152,10 @@ def configs(tier):
     # that the drain signal (resumeProducing) arrives inside the write() that
     # caused the pause, i.e. inside a producer's turn
     return [{"mode": "mixed"}, {"mode": "mixed"}, {"mode": "rotation"},
-            {"mode": "inbound"}, {"mode": "mixed", "sync_drain": True}]
+            {"mode": "inbound"}, {"mode": "mixed", "sync_drain": True},
+            # the sixth: a crowd of producers (one on each of 17..30
+            # subchannels a side), light load after the drain
+            {"mode": "mixed", "crowd": True}]
 
 
 def run_one(seed, tape, opts):
@@ -240,7 +245,11 @@ def run_one(seed, tape, opts):
         s.listen("data")
     recs = []
     for s in w.sides:
-        for i in range(1 + tape.choose(3, "nsub")):
+        nsub_ = 1 + tape.choose(3, "nsub")
+        if opts.get("crowd"):
+            # scale: 17..30 subchannels, each with its own producer
+            nsub_ = 17 + tape.choose(14, "nsub_crowd")
+        for i in range(nsub_):
             recs.append((s, s.connect("data")))
     sim.run(3000, until=lambda: all(r[1][1] != "pending" for r in recs) and
             all(len([q for q in w.peer_of(s).protocols
@@ -253,6 +262,13 @@ def run_one(seed, tape, opts):
             subs[s.name].append(rec[2])
     acc = {s.name: [q for q in s.protocols if q.role == "acceptor" and q.made]
            for s in w.sides}
+    if opts.get("crowd"):
+        for s_ in w.sides:
+            for p_ in subs[s_.name]:
+                prod = PushProd(ctx, s_, p_, tape.pick((0, 0, 1), "beh_c"))
+                producers[s_.name].append(prod)
+                p_.transport.registerProducer(prod, True)
+        sim.note("probe.crowd_of_producers")
     app_paused = {}       # protocol -> bool (application's last request)
     nops = 6 + tape.choose(25, "nops")
     done_ops = [0]
